@@ -472,6 +472,8 @@ class Model:
                     g = guards[pos]
                     if 'full' in g:
                         if g['full'] == full: pass
+                        elif evs and g['full'] == [(q[2], q[0], q[1], q[3]) for e in evs for q in e['issue']][:self.cap]:
+                            break    # exactly what this round's guards have issued so far: the first guard of the next round, not a payload mix-up
                         elif [x[1:] for x in g['full']] == nop and all(a[0] == b[0] or a[0] == -1 or b[0] == -1 or a[0] < b[0] for a, b in zip(g['full'], full)):
                             # same requests carrying other (older or missing) payloads: C14's business; ids only grow, so a larger id belongs to a later round
                             self.payload_mismatch.append((g['state'], g['full'], full))
